@@ -4,6 +4,30 @@ import "verif/internal/eng"
 
 func init() {
 	register(&Property{
+		ID: "C01",
+		Explanation: "Decides the structural core of the round trip, not equality of restored bytes and attributes: (nodetype-exhaustive) fs.nodeTypeFromFileInfo yields file, dir, symlink, dev, chardev, fifo and socket (plus irregular/invalid, no type unknown to this check), and both fs.NodeCreateAt (restore) and fs.nodeFillExtendedStat (backup) have their own case for each of the seven and return an error when no case matches (specialised evaluation with every type comparison false); (node-field-flow) every serialised field of data.Node (enumerated from the struct; reasons recorded for ChangeTime, Error, Path, LinkTargetRaw) is stored by the backup side (fs.nodeFromFileInfo and its callees in package fs, package archiver) and read by the restore side (fs.NodeCreateAt, fs.NodeRestoreMetadata and their callees in package fs, package restorer) — a recorded attribute nobody restores, or a restored attribute nobody records, is a violation; (restore-passes) Restorer.RestoreTo writes file content only after the first traversal succeeded and starts the second traversal only after restoreFiles returned nil; restoreNodeMetadataTo is called by the second traversal's visitors only and files are scheduled by the first only, so no content is written after metadata was applied; (content-order, C17) chunk IDs are recorded in read order; (marshal-siblings, C41) names and link targets survive encoding. Not decided: equality of content, modes, times, ownership, xattrs and hard-link grouping after a real round trip on every platform, concurrency settings and pack sizes.",
+		Assumptions: commonAssumptions,
+		Technique:   "static analysis: case coverage of the node-type switches + producer/consumer field coverage over call closures + CFG ordering cuts (go/ssa, go/types)",
+		AllConfigs:  true,
+		Run: func(c *eng.Ctx) {
+			ruleNodeTypeExhaustive(c)
+			ruleNodeFieldFlow(c)
+			ruleRestorePasses(c)
+			ruleContentOrder(c)
+			ruleMarshalSiblings(c)
+		},
+		Controls: []Control{
+			{Name: "fifo-not-recreated", File: "internal/fs/node.go",
+				Old: "	case data.NodeTypeFifo:\n		err = nodeCreateFifoAt(path)\n", New: "", Rule: "nodetype-exhaustive"},
+			{Name: "unknown-type-silently-accepted-on-restore", File: "internal/fs/node.go",
+				Old: "	default:\n		err = errors.Errorf(\"filetype %q not implemented\", node.Type)\n	}\n\n	return err", New: "	}\n\n	return err", Rule: "nodetype-exhaustive"},
+			{Name: "device-number-not-recorded", File: "internal/fs/node.go",
+				Old: "	case data.NodeTypeDev:\n		node.Device = stat.Device\n		node.Links = stat.Links\n	case data.NodeTypeCharDev:\n		node.Device = stat.Device\n		node.Links = stat.Links", New: "	case data.NodeTypeDev:\n		node.Links = stat.Links\n	case data.NodeTypeCharDev:\n		node.Links = stat.Links", Rule: "node-field-flow"},
+			{Name: "metadata-before-content", File: "internal/restorer/restorer.go",
+				Old: "						filerestorer.addFile(location, node.Content, int64(node.Size), matches)", New: "						filerestorer.addFile(location, node.Content, int64(node.Size), matches)\n						_ = res.restoreNodeMetadataTo(node, target, location)", Rule: "restore-passes"},
+		},
+	})
+	register(&Property{
 		ID: "C18",
 		Explanation: "Decides the guards that confine restore to the target for every snapshot content and every pre-existing state: (name-guards) in the tree walk, every call that receives the child path (enterDir, the recursion, leaveDir, visitNode) is reachable only on the edges Base(Join(sep, node.Name)) == node.Name (the name is a single, rooted-and-cleaned component), target != nodeTarget and fs.HasPathPrefix(target, nodeTarget); (dir-not-symlink) ensureDir — the only creator of directories below the target — reaches MkdirAll from its Lstat only on 'does not exist', 'IsDir() is true' or after removing the foreign object, so a pre-existing symlink to an outside directory is never descended into; (nofollow) every fs.OpenFile of package restorer carries O_NOFOLLOW and a file re-created after removing an obstacle is opened with O_EXCL; (delete-guard) --delete calls RemoveAll only for Join(target, entry) that passed the same prefix tests, is not in the snapshot's directory listing, is selected by the filter, not in dry-run, with the directory listed under O_NOFOLLOW. Not decided: races with a concurrent process that modifies the target during the restore.",
 		Assumptions: append([]string{"filepath.Join/Base/Clean and fs.HasPathPrefix behave as documented", "O_NOFOLLOW/O_EXCL are honoured by the operating system"}, commonAssumptions...),
